@@ -10,7 +10,12 @@ Import ListNotations.
 Open Scope string_scope.
 
 Definition key := string.
-Inductive val := VB (b : bool) | VZ (z : Z) | VQ (q : Q) | VS (s : string) | VNone.
+(* scalars as before; composite python values: VA = numpy array (its elements, flattened), VSer = pandas Series,
+   VL = list / tuple, VD = dict, VO = any other object (function, ...) identified by a number.
+   Composite values are carried through the option code unchanged; the only operation the code applies to them is
+   `val != default` in _passed_runpp_parameters (see [ne_truth]). *)
+Inductive val := VB (b : bool) | VZ (z : Z) | VQ (q : Q) | VS (s : string) | VNone
+               | VA (l : list val) | VSer (l : list val) | VL (l : list val) | VD (d : list (key * val)) | VO (n : Z).
 Definition dict := list (key * val).
 
 (* ---- python value semantics *)
@@ -34,15 +39,39 @@ Definition val_eqb (a b : val) : bool :=
       end
   | _, _ => false
   end.
-(* python truthiness *)
-Definition truthy (v : val) : bool :=
+(* note on val_eqb: python  a == b  yields False for list/dict/object against a scalar; composite against composite is never evaluated
+   by the modelled code (every default of the signature is a scalar, see Proofs.named_defaults_scalar) *)
+(* python truthiness; a size-1 array has the truth value of its element.  (bool() of an array of another size or of a
+   Series raises: composite values in the boolean contexts of _init_runpp_options are outside the model, the
+   correspondence run uses them only for options that the code copies.) *)
+Fixpoint truthy (v : val) : bool :=
   match v with
   | VB b => b
   | VZ z => negb (Z.eqb z 0)
   | VQ q => negb (Qeq_bool q 0)
   | VS s => negb (String.eqb s "")
   | VNone => false
+  | VA [x] => truthy x
+  | VA _ => false | VSer _ => false
+  | VL l => match l with [] => false | _ => true end
+  | VD d => match d with [] => false | _ => true end
+  | VO _ => true
   end.
+Definition is_scalar (v : val) : bool :=
+  match v with VB _ | VZ _ | VQ _ | VS _ | VNone => true | _ => false end.
+(* run.py:543  `val != default` inside the `if` of the dict comprehension, i.e. bool(val != default), for a scalar
+   default:  list/tuple/dict/object != scalar is True;  array != scalar is the elementwise array, whose bool() is the
+   element's for size 1 and raises ValueError for every other size (numpy >= 2.2 also for size 0);  Series != scalar is
+   a Series, whose bool() always raises ValueError.  None = ValueError. *)
+Definition ne_truth (v d : val) : option bool :=
+  match v with
+  | VA [x] => Some (negb (val_eqb x d))
+  | VA _ => None
+  | VSer _ => None
+  | _ => Some (negb (val_eqb v d))
+  end.
+Definition ne_true (v d : val) : bool := match ne_truth v d with Some b => b | None => false end.
+Definition ne_raises (v d : val) : bool := match ne_truth v d with Some _ => false | None => true end.
 Definition is_none (v : val) : bool := match v with VNone => true | _ => false end.
 Definition eqs (v : val) (s : string) : bool := val_eqb v (VS s).
 
@@ -93,10 +122,18 @@ Definition call_kwargs (explicit : dict) : dict :=
    "passed" <=> key has no default or value != default; kwargs always count as passed. *)
 Definition passed_named (named : dict) : dict :=
   filter (fun kv => negb (mem (fst kv) (keys named_defaults))
-                    || negb (val_eqb (snd kv) (getd (fst kv) named_defaults VNone))) named.
-Definition passed_parameters (stored named kwargs : dict) : option dict :=
-  if is_empty stored then None                                 (* :532-533 *)
-  else Some (update (passed_named named) kwargs).              (* :541-547 *)
+                    || ne_true (snd kv) (getd (fst kv) named_defaults VNone)) named.
+(* the comparison raises for some named argument (array of size <> 1, Series) *)
+Definition passed_raises (named : dict) : bool :=
+  existsb (fun kv => mem (fst kv) (keys named_defaults)
+                     && ne_raises (snd kv) (getd (fst kv) named_defaults VNone)) named.
+Inductive res (A : Type) := Ok (a : A) | Err (e : string).
+Arguments Ok {A} a.
+Arguments Err {A} e.
+Definition passed_parameters (stored named kwargs : dict) : res (option dict) :=
+  if is_empty stored then Ok None                              (* :532-533 *)
+  else if passed_raises named then Err "ValueError"            (* :541-544, bool() of an array / Series *)
+  else Ok (Some (update (passed_named named) kwargs)).         (* :541-547 *)
 
 (* auxiliary.py:1684-1687 *)
 Definition overrule (stored : dict) (passed : option dict) : dict :=
@@ -118,10 +155,6 @@ Record facts := {
   f_ls2g_blocked : bool;         (* controllable shunt / tcsc / svc / ssc / vsc / bus_dc / line_dc present, :1335-1370 *)
   f_tdpf_ok : bool               (* _check_tdpf_parameters does not raise *)
 }.
-
-Inductive res (A : Type) := Ok (a : A) | Err (e : string).
-Arguments Ok {A} a.
-Arguments Err {A} e.
 
 (* auxiliary.py:1298-1372 *)
 Definition ls2g_check (f : facts) (ls vdl alg ds tdpf : val) : res val :=
@@ -231,17 +264,20 @@ Definition init_runpp_options (f : facts) (named kwargs : dict) (passed : option
 Definition runpp_options (f : facts) (stored explicit : dict) : res dict :=
   let named := call_named explicit in
   let kwargs := call_kwargs explicit in
-  init_runpp_options f named kwargs (passed_parameters stored named kwargs) stored.
+  match passed_parameters stored named kwargs with
+  | Err e => Err e
+  | Ok passed => init_runpp_options f named kwargs passed stored
+  end.
 
 (* ---- the guard of the partial theorem: every explicitly passed named argument differs from its default *)
 Definition G34 (explicit : dict) : bool :=
   forallb (fun kd => match lookup (fst kd) explicit with
-                     | Some v => negb (val_eqb v (snd kd))
+                     | Some v => ne_true v (snd kd)
                      | None => true end) named_defaults.
 (* guard for one key: explicit value of k is not (python-)equal to the default of k *)
 Definition G34_key (explicit : dict) (k : key) : bool :=
   match lookup k explicit, lookup k named_defaults with
-  | Some v, Some d => negb (val_eqb v d)
+  | Some v, Some d => ne_true v d
   | _, _ => true
   end.
 
@@ -258,8 +294,15 @@ Definition plain_keys : list key :=
     "only_v_results"; "use_umfpack"; "permc_spec"; "tdpf_update_r_theta" ].
 
 (* ---- output *)
-Definition oval (v : val) : out :=
-  match v with VB b => OB b | VZ z => OZ z | VQ q => oq q | VS s => OS s | VNone => ONone end.
+Fixpoint oval (v : val) : out :=
+  match v with
+  | VB b => OB b | VZ z => OZ z | VQ q => oq q | VS s => OS s | VNone => ONone
+  | VA l => OL [OS "array"; OL (map oval l)]
+  | VSer l => OL [OS "series"; OL (map oval l)]
+  | VL l => OL [OS "list"; OL (map oval l)]
+  | VD d => OL [OS "dict"; OL (map (fun kv => OL [OS (fst kv); oval (snd kv)]) d)]
+  | VO n => OL [OS "object"; OZ n]
+  end.
 Definition odict (d : dict) : out := olist (fun kv => OL [OS (fst kv); oval (snd kv)]) d.
 Definition ores (r : res dict) : out := match r with Ok d => odict d | Err e => OErr e end.
 (* output compression for the correspondence run: strings found in the table are printed as their index
@@ -277,5 +320,6 @@ Fixpoint intern (tbl : list string) (o : out) : out :=
   end.
 Definition run_options (f : facts) (stored explicit : dict) : out :=
   OL [ ores (runpp_options f stored explicit);
-       oopt odict (passed_parameters stored (call_named explicit) (call_kwargs explicit));
+       match passed_parameters stored (call_named explicit) (call_kwargs explicit) with
+       | Ok p => oopt odict p | Err e => OErr e end;
        OB (G34 explicit) ].
